@@ -15,7 +15,7 @@ MODES = {
 RULE = (
     "cases: closed meshes (voronoi valence 3, delaunay/merged valence 3..10, polyhedra, cubed sphere) and partial "
     "meshes (holes, isolated faces, single face), renumbered, rigidly rotated, nodes snapped onto a pole / the "
-    "antimeridian / the prime meridian; JIT on and JIT off (jit-off mode restricted to meshes <= 120 faces). "
+    "antimeridian / the prime meridian; high-resolution patches and locally refined meshes (edges down to 1e-7 rad); after the dual of a grid, the duals of face subsets of it (permutation, band removed, random half) judged against the subset's own tables; JIT on and JIT off (jit-off mode restricted to meshes <= 120 faces). "
     "Oracle: model incidence; dual node k at primal face k's centre; dual faces exactly for nodes with >= 3 faces, "
     "in node order; corner set = faces at the node; angular position of the corners about the node strictly "
     "increasing counter-clockwise from corner 0; for interior nodes consecutive corners share a primal edge "
@@ -31,7 +31,8 @@ def cases(tier, seed):
     rng = np.random.default_rng([seed, 1818])
     n = 110 if tier == "quick" else 12000
     for i in range(n):
-        yield {"mesh": gen.random_mesh(rng, 150 if tier == "quick" else 900), "dseed": int(rng.integers(0, 10**6))}
+        fams = ["fine_patch", "refined"] if i % 5 == 4 else None  # high-resolution regional patches / locally refined closed meshes
+        yield {"mesh": gen.random_mesh(rng, 150 if tier == "quick" else 900, families=fams), "dseed": int(rng.integers(0, 10**6))}
 
 
 def run_case(ctx, case):
@@ -41,11 +42,36 @@ def run_case(ctx, case):
     if ctx.mode == "jit-off" and m.n_face > 120:
         return
     g = ux.grid_from_mesh(m)
+    dual = check_dual(ctx, case, g, m, {"closed": bool(m.closed)})
+    if dual is None:
+        return
+    # the dual of grids DERIVED from this one (after the source has built its own node->faces table for the dual above):
+    # face subsets that renumber and remove faces, judged against the faces and nodes the subset itself reports
+    rng = np.random.default_rng(case["dseed"] + 11)
+    if m.n_face >= 6:
+        picks = {"permutation": rng.permutation(m.n_face), "band_removed": np.nonzero(np.abs(np.array([ref.unit(m.ring_pos(i).mean(axis=0))[2] for i in range(m.n_face)])) > 0.25)[0],
+                 "random_half": np.sort(rng.choice(m.n_face, size=max(3, m.n_face // 2), replace=False))}
+        for how, idx in picks.items():
+            if len(idx) < 3:
+                continue
+            try:
+                sub = g.isel(n_face=np.asarray(idx, dtype=int))
+                rows = ux.rows(sub.face_node_connectivity.values)
+                sm = gen.Mesh(ux.grid_node_xyz(sub), rows, dict(d, derived=how), bool(m.closed and how == "permutation"))
+            except Exception as e:
+                ctx.check("no_exception", False, {"stage": "subset_" + how, "exc": core.exc_sig(e)}, {"exc": repr(e), "mesh": d})
+                continue
+            check_dual(ctx, case, sub, sm, {"closed": bool(sm.closed), "grid": "face_subset_" + how}, with_data=False)
+            ctx.observe("derived_grid_" + how)
+
+
+def check_dual(ctx, case, g, m, sig0, with_data=True):
+    U = ux.ux()
+    d = case["mesh"]
     nfm = ref.node_faces(m.faces, m.n_node)
     efm = ref.edge_faces(m.faces)
     want_nodes = [n for n in range(m.n_node) if len(nfm[n]) >= 3]
     snapped = any(o[0] == "snap" for o in d.get("ops", []))
-    sig0 = {"closed": bool(m.closed)}
     if not want_nodes:
         # nothing to build: the library may raise or return an empty grid; not demanded
         ctx.observe("no_dual_face_possible")
@@ -53,18 +79,18 @@ def run_case(ctx, case):
             g.get_dual()
         except Exception:
             pass
-        return
+        return None
     try:
         dual = g.get_dual()
     except Exception as e:
         ctx.check("no_exception", False, dict(sig0, exc=core.exc_sig(e)), {"exc": repr(e), "mesh": d})
-        return
+        return None
     ctx.check("no_exception", True)
     # counts
     ok = dual.n_node == m.n_face and dual.n_face == len(want_nodes)
     ctx.check("counts", ok, sig0, {"dual_n_node": dual.n_node, "n_face": m.n_face, "dual_n_face": dual.n_face, "want": len(want_nodes), "mesh": d})
     if not ok:
-        return
+        return None
     # positions: dual node k at primal face k's centre (normalised corner mean)
     cent = np.array([ref.unit(m.ring_pos(i).mean(axis=0)) for i in range(m.n_face)])
     dpos = ux.grid_node_xyz(dual)
@@ -102,7 +128,7 @@ def run_case(ctx, case):
                     break
             ctx.check("interior_adjacent", adj, sig, {"node": n, "ring": ring, "mesh": d})
     # data
-    if m.closed:
+    if m.closed and with_data:
         rng = np.random.default_rng(case["dseed"])
         for kind, n_el, dual_dim in (("n_face", m.n_face, "n_node"), ("n_node", m.n_node, "n_face")):
             # any leading and trailing dimensions: the element dimension may sit anywhere
@@ -130,4 +156,6 @@ def run_case(ctx, case):
     ctx.observe("max_valence_%d" % min(max_val, 9))
     if snapped:
         ctx.observe("snapped_placement")
-    ctx.sample({"mesh": d, "stats": ux.mesh_stats(m), "dual_faces": len(want_nodes), "max_valence": max_val})
+    if with_data:
+        ctx.sample({"mesh": d, "stats": ux.mesh_stats(m), "dual_faces": len(want_nodes), "max_valence": max_val})
+    return dual
